@@ -146,6 +146,8 @@ pub(crate) fn run(seed: u64, n: u64, out: &mut Out) {
         let init = format!("[SE_init (mkBlock 0 [])]");
         let mut registered: Vec<(usize, bool, u64)> = Vec::new(); // (sid, is_lock, start) as far as the oracle knows
         let mut salt = 0u64;
+        let mut orphaned: Vec<GTx> = Vec::new();
+        let mut pending_orphan: Option<GTx> = None;
         let steps = rng.range(6, 22);
         let mut stopped = false;
         for step in 0..steps {
@@ -196,6 +198,15 @@ pub(crate) fn run(seed: u64, n: u64, out: &mut Out) {
                     // next block of the current chain
                     let number = tip + 1;
                     let mut txs: Vec<GTx> = Vec::new();
+                    // a transaction of an abandoned branch is committed again, at whatever position it gets here
+                    if !orphaned.is_empty() && rng.chance(1, 2) {
+                        let k = rng.below(orphaned.len() as u64) as usize;
+                        if orphaned[k].inputs.iter().all(|i| live.contains(i)) && !blocks.iter().any(|b| b.txs.iter().any(|t| t.id == orphaned[k].id)) {
+                            let t = orphaned.remove(k);
+                            live.retain(|x| !t.inputs.contains(x));
+                            if rng.chance(1, 2) { for oi in 0..t.outputs.len() { live.push((t.id, oi as u32)); } txs.push(t); } else { pending_orphan = Some(t); }
+                        }
+                    }
                     for _ in 0..rng.range(1, 3) {
                         let mut inputs: Vec<(u64, u32)> = Vec::new();
                         for _ in 0..rng.range(0, 2) {
@@ -216,11 +227,24 @@ pub(crate) fn run(seed: u64, n: u64, out: &mut Out) {
                         all_tx.insert(id, t.clone());
                         txs.push(t);
                     }
+                    if let Some(t) = pending_orphan.take() { for oi in 0..t.outputs.len() { live.push((t.id, oi as u32)); } txs.push(t); }
                     let raw = packed::RawHeader::new_builder().number(number.pack()).timestamp((salt + 1000).pack()).build();
                     let header = packed::Header::new_builder().raw(raw).build();
                     let pblock = packed::Block::new_builder().header(header).transactions(txs.iter().map(|t| t.packed.clone()).collect::<Vec<_>>().pack()).build();
                     let b = GBlock { number, txs, packed: pblock.clone() };
                     blocks.push(b.clone());
+                    if rng.chance(1, 6) {
+                        // fetch_transaction answered for a transaction of this block before the block itself is indexed
+                        let t = b.txs[rng.below(b.txs.len() as u64) as usize].clone();
+                        let raw = packed::RawHeader::new_builder().number(number.pack()).timestamp(77u64.pack()).build();
+                        let hwe = HeaderWithExtension { header: packed::Header::new_builder().raw(raw).build(), extension: None };
+                        let st = w.storage.clone();
+                        let ptx = t.packed.clone();
+                        if catch(move || st.add_fetched_tx(&ptx, &hwe)).is_some() {
+                            events.push(format!("SE_fetched_tx {} {}", tx_term(&t), number));
+                            obs.push(dump(&mut w));
+                        }
+                    }
                     let st = w.storage.clone();
                     let r = catch(move || st.filter_block(pblock));
                     if static_scripts && r.is_some() {
@@ -245,6 +269,7 @@ pub(crate) fn run(seed: u64, n: u64, out: &mut Out) {
                     let to = rng.range(1, tip);
                     let st = w.storage.clone();
                     let r = catch(move || st.rollback_to_block(to));
+                    for b in blocks.iter().skip((to - 1) as usize) { for t in &b.txs { orphaned.push(t.clone()); } }
                     blocks.truncate((to - 1) as usize);
                     // recompute the ground-truth live set of the shortened chain
                     let mut l: Vec<(u64, u32)> = Vec::new();
